@@ -505,9 +505,9 @@ pub fn run(ctx: &Ctx) {
     ctx.cases(&subs[0], &list);
     let p = DocParams { ws: 2, max_depth: 4, max_items: 5, dup_keys: true, ..DocParams::default() };
     let pc = p.clone();
-    ctx.search(&subs[0], "docs", ctx.n(400_000, 4_000_000), 600, &move |src: &mut Src| gens::gen_doc(src, &pc));
+    ctx.search(&subs[0], "docs", ctx.n(2_000_000, 16_000_000), 600, &move |src: &mut Src| gens::gen_doc(src, &pc));
     let pc = DocParams { dup_keys: false, ..p.clone() };
-    ctx.search(&subs[1], "histories", ctx.n(800_000, 8_000_000), 500, &move |src: &mut Src| {
+    ctx.search(&subs[1], "histories", ctx.n(4_000_000, 32_000_000), 500, &move |src: &mut Src| {
         let doc = gens::gen_container_doc(src, &pc);
         let doc = if doc.len() > 60_000 { b"[1,[2]]".to_vec() } else { doc };
         let mut c = vec![(doc.len() >> 8) as u8, doc.len() as u8];
